@@ -488,6 +488,33 @@ class Item:
         self.rewrites.append({"rule": "proof", "at": "loop #%d body start/end" % ordinal, "what": why})
         return self
 
+    def desugar_for(self, ordinal, fn_name=None):
+        """R11: the ordinal-th loop, which must be `for PAT in EXPR { .. }` over a by-value Vec, is desugared the way rustc does it:
+        `let mut verif_itN = verif_into_iter(EXPR); while let Some(PAT) = verif_itN.next() { .. }` (Verus' own `for` supports neither
+        `continue` nor an iterator that is consumed).  verif_into_iter / VerifIter::next are shims by contract (common_std.VERIF_ITER)."""
+        toks, bi = self._body_open(fn_name)
+        src = self.text
+        cnt = 0
+        for idx in range(bi, len(toks)):
+            kind, s, e = toks[idx]
+            if kind == "ident" and src[s:e] in ("for", "while", "loop"):
+                cnt += 1
+                if cnt != ordinal:
+                    continue
+                if src[s:e] != "for":
+                    raise ExtractionError("%s: loop #%d is not a for loop" % (self.name, ordinal))
+                j = find_block_open(src, toks, idx + 1)
+                k_in = next((k for k in range(idx + 1, j) if toks[k][0] == "ident" and src[toks[k][1]:toks[k][2]] == "in"), None)
+                if k_in is None:
+                    raise ExtractionError("%s: `in` of for loop #%d not found" % (self.name, ordinal))
+                pat = src[toks[idx][2]:toks[k_in][1]].strip()
+                expr = src[toks[k_in][2]:toks[j][1]].strip()
+                it = "verif_it%d" % ordinal
+                self.text = (src[:s] + "let mut %s = verif_into_iter(%s);\n        while let Some(%s) = %s.next() " % (it, expr, pat, it) + src[toks[j][1]:])
+                self.rewrites.append({"rule": "R11", "what": "`for %s in %s` desugared to `let mut %s = verif_into_iter(..); while let Some(%s) = %s.next()`" % (pat, expr, it, pat, it)})
+                return it
+        raise ExtractionError("%s: loop #%d not found" % (self.name, ordinal))
+
     def insert_at_body_start(self, text, why, fn_name=None):
         """Insert ghost/proof text right after the opening brace of the fn body (no statement anchor needed)."""
         toks, bi = self._body_open(fn_name)
